@@ -46,6 +46,8 @@ func biasFor(prop, tier string) gBias {
 		b.PFail = 5
 		b.DeferCallTpl = true
 		b.PDefer = 12
+		b.FailSibling = true
+		b.PDedup = 40
 		b.FailMix = true // "returns only after ..." matters most when the call fails and the caller carries on
 	case "C03":
 		b.PFail = 30
